@@ -306,7 +306,7 @@ def all_small_asts(table, ops3):
 
 # ---------------- character-level strings ----------------
 CHAR_ALPHABET = [" ", "\t", "\n", "(", ")", "[", "]", "{", "}", ",", ";", "0", "7", ".", "e", "+", "-", "<", "=", "!", "&",
-                 "?", ":", "\"", "'", "a", "n", "_", "é", "✓", "😀", "@", "|", "*", "t"]
+                 "?", ":", "\"", "'", "a", "n", "_", "é", "✓", "😀", "@", "|", "*", "t", "\x0c", "\u00a0", "\u2028", "\r"]
 
 def all_strings(alphabet, maxlen):
     for n in range(0, maxlen + 1):
